@@ -73,7 +73,21 @@ pub fn triggers() -> Vec<String> {
     // a repeat before a group whose body starts with an optional variable-length term
     for x in ["a", "[ab]", "b"] {
         for q in ["*", "+", "?", "{1,2}"] {
-            for y in ["(?:(?:bc|d)?a)+", "(?:(?:bb|b)?a)+", "(?:(?:bc|d)*a){1,}", "(?:(?:cd|c)?ab){2,3}", "((?:(?:bc|d)?a)+)", "(?:(?:a|$)*b|c)d"] {
+            for y in [
+                "(?:(?:bc|d)?a)+",
+                "(?:(?:bb|b)?a)+",
+                "(?:(?:bc|d)*a){1,}",
+                "(?:(?:cd|c)?ab){2,3}",
+                "((?:(?:bc|d)?a)+)",
+                "(?:(?:a|$)*b|c)d",
+                // ... optional by way of an alternative that can be empty
+                "(?:(?:(?:ab)?|c)d)+",
+                "(?:(?:a?|c)d)+",
+                "(?:(?:|ab)d)+",
+                "(?:(?:ab|)d){1,2}",
+                "((?:(?:ab)?|c)d)+",
+                "(?:(?:(?:ab)+|c|)d){1,}",
+            ] {
                 v.push(format!("{}{}{}", x, q, y));
                 v.push(format!("x{}{}{}y", x, q, y));
             }
